@@ -9,9 +9,15 @@ Tie: numeric correspondence (|impl - model| <= 1e-9 * scale) between the Lean mo
   * Model/Cdf.lean (`cdfRun`, the alpha recurrence) and SolveCDF / SolveUnc(cd_as_force=True).tsolve; the
     model is fed the solver's diagonal coefficients (get_su_coef is C01's subject) and an `alpha` computed
     here independently from the damping matrix.
+    `alpha` computed by the model itself (`alphaMat`, the transposed solve of SolveUnc.__init__) from the input damping;
+  * rf rows through `rfStaticMat`; step-halving triples (h, h/2, h/4) of both solvers on smooth problems, with the error
+    ratios of model and implementation recorded in the evidence.
 The oracle (search) never touches the Lean model: recurrence residuals evaluated in numpy on the returned
-histories, SolveCDF == SolveUnc for diagonal damping, implicit CDF equations, step-halving orders against
-scipy's adaptive integrator, boundedness for large steps on damped systems, massless DOF.
+histories, SolveCDF == SolveUnc for diagonal damping, implicit CDF equations, SolveCDF == SolveUnc driven by
+P - C_od v, step-halving orders against scipy's adaptive integrator, boundedness and discrete-energy non-increase for
+large steps on damped systems, massless DOF (quasi-static rows); call sequences on ONE solver object (def_nonlin
+re-defined between solves with new / shared / in-place-modified transform arrays or a mutated dict): every phase must
+satisfy the documented equations for the definition in force, equal a fresh object, and leave caller arrays unchanged.
 """
 import json
 import math
@@ -24,57 +30,115 @@ import numpy as np
 from runner import Infra
 
 ID = "C17"
-LEAN_MODULES = ["PyYetiVerif.Props.C17", "PyYetiVerif.Audit.C17"]
+LEAN_MODULES = ["PyYetiVerif.Props.C17", "PyYetiVerif.Props.C17Conv", "PyYetiVerif.Props.C17Stab",
+                "PyYetiVerif.Props.C17Cdf", "PyYetiVerif.Audit.C17"]
 AUDIT_FILE = "PyYetiVerif/Audit/C17.lean"
 THEOREMS = [
     "PyYetiVerif.C17." + n
     for n in (
         "newmark_is_documented newmark_central_differences newmark_consistent newmark_startup_defect "
-        "newmark_startup_exact_iff newmark_stable_scalar massless_ok cdf_is_documented cdf_diag_eq_unc"
+        "newmark_startup_exact_iff newmark_stable_scalar massless_ok cdf_is_documented cdf_diag_eq_unc "
+        # Props/C17Conv.lean: global convergence of the scalar scheme
+        "newmark_run_is_sequence newmark_error_recursion newmark_truncation_bound newmark_startup_error_bound "
+        "newmark_converges_scalar newmark_converges_scalar_second_order "
+        # Props/C17Stab.lean: energy-method stability (scalar and full matrices), modal reduction, massless rows
+        "newmark_energy_identity newmark_power_bounded_scalar newmark_energy_stable newmark_free_response_bounded "
+        "newmark_stable_full newmark_stable_modal massless_rows_quasistatic rf_rows_static "
+        # Props/C17Cdf.lean: alpha and the meaning of one cd-as-force step
+        "cdf_alpha_identity cdf_alpha_transpose_solve cdf_alpha_transposed_variant_differs "
+        "cdf_step_is_exact_for_interpolated_damping_force cdf_run_is_unc_with_damping_force"
     ).split()
 ]
 TRUSTED = [
     "correspondence harness harness/props/c17.py (numeric comparison, 1e-9 * scale; scale = max |d| for "
-    "displacements, max |d| / h and max |d| / h^2 for the central differences)",
+    "displacements, max |d| / h and max |d| / h^2 for the central differences, max |alpha| for alpha)",
     "scipy.linalg.lu_factor/lu_solve and la.solve are modelled by the specification 'left inverse of A' "
-    "(Gaussian elimination in the driver); the residual is measured by the correspondence on every run",
-    "get_su_coef coefficients (property C01) are inputs of the cd-as-force model, taken from the solver instance",
+    "(Gaussian elimination in the driver: A, k_rf, and the transposed system of alpha); the residual is measured by the "
+    "correspondence on every run",
+    "get_su_coef coefficients (property C01) are inputs of the cd-as-force model, taken from the solver instance; "
+    "alpha is NOT taken from the instance: the model computes it from the input damping (Model/Cdf.lean alphaMat)",
     "floating-point round-off of the recurrences is outside the theorems (field arithmetic)",
+    "the convergence theorems take the exact solution u as given, with four derivatives on the real line and bounds "
+    "M3 >= |u(3)|, M4 >= |u(4)| on [0, T] (what f in C^2 provides); existence of u (Picard-Lindelof) is not proved",
     "step-halving reference: scipy.integrate.solve_ivp (DOP853, rtol 1e-11)",
 ]
 RULE = (
-    "a case is one (solver, m/b/k form [diag vector | diag matrix | full | m=None | singular mass], h, nt, force "
-    "style, initial conditions, rf partition, nonlinear-term list, order) whose complete d/v/a history is compared "
-    "with the Lean model's; non-trivial = nt >= 3 (the loop runs) and the response is not identically zero; "
-    "distinct by the full numeric input; branch histogram lists form, rf, nonlinear kinds, massless, nt"
+    "a case is one (solver, m/b/k form [diag vector | diag matrix | full | m=None | singular mass | massless-undamped row], "
+    "C/Fortran layout, h, nt, force style, initial conditions, rf partition, nonlinear-term list, order, symmetric / "
+    "non-symmetric off-diagonal damping) whose complete d/v/a history (and alpha, rf rows) is compared with the Lean "
+    "model's; step-halving cases are triples of such runs at h, h/2, h/4 on a smooth problem; solver objects are RE-USED: "
+    "a call-sequence case is 2-4 phases on ONE SolveNewmark object (def_nonlin re-defined with fresh arrays / several "
+    "terms sharing one transform array / the same arrays overwritten in place / the caller's dict mutated / cleared, or "
+    "only a new force and initial conditions), every phase compared with the model on the definition in force, with a "
+    "fresh object, and for unchanged caller-owned arrays (m, b, k, force, d0, v0, T); cd-as-force objects are solved "
+    "three times; non-trivial = nt >= 3 (the "
+    "loop runs) and the response is not identically zero; distinct by the full numeric input; branch histogram lists "
+    "form, layout, rf, nonlinear kinds, massless, nt"
 )
 ASSUMPTIONS = [
-    "systems generated with cond(A) <= 1e6 (others skipped and counted); w*h in [0.02, 6]",
+    "systems generated with cond(A) <= 1e6, cond(k_rf) <= 1e6, cond(I + Bp C_od) <= 1e6 (others skipped and counted); "
+    "w*h in [0.02, 6]",
     "nonlinear callbacks read only d[:, j] and d[:, j-1] (the documented use) and the step index j",
+    "a transform array changed in place takes effect at the next def_nonlin call (def_nonlin copies: T' = A^-1 T); "
+    "changing it WITHOUT calling def_nonlin again is not exercised (undocumented either way)",
     "nt >= 2 for SolveNewmark (nt = 1 raises IndexError in the code; modelled as an error, compared exactly)",
+    "energy oracle: symmetric positive semidefinite M, K and B (Q^T diag Q with orthogonal Q), zero force",
 ]
 PARTIAL = (
-    "partial: global convergence (error -> 0 as h -> 0) and stability for full (coupled) matrices are measured by "
-    "the step-halving / boundedness oracle, not proved; proved are the local statements (recurrence = documented "
-    "equations for any module, exactness on quadratics, explicit start-up defect, scalar Schur-Cohn stability)"
+    "partial: (1) global convergence is proved for the scalar test equation, hence DOF by DOF for diagonal (unc) systems "
+    "(newmark_converges_scalar: |d_n - u(t_n)| <= K1 |F(0) - K u0 - B v0| h + K2 h^2, every h > 0, explicit K1, K2; "
+    "second order iff the start-up is balanced) - for coupled (full) matrices only stability is proved "
+    "(newmark_stable_full, energy method, any symmetric psd M, K and any B with <Bx,x> >= 0) and the order is measured by "
+    "the step-halving correspondence/oracle; (2) the exact solution with four bounded derivatives is a hypothesis "
+    "(existence not proved), and only displacements are covered - the central-difference velocities/accelerations and "
+    "the systems with nonlinear terms have no convergence statement; (3) newmark_stable_modal takes the simultaneously "
+    "diagonalising pair (Phi, Psi) as given - the spectral theorem producing it from commuting M^-1 K, M^-1 B is not "
+    "proved (newmark_stable_full does not need it); for full matrices boundedness (energy non-increase) is proved, "
+    "strict decay is not; (4) SolveCDF: every step is proved to be SolveUnc's exact step for the force P - C_od v taken "
+    "linearly over the step (cdf_step_is_exact_for_interpolated_damping_force, cdf_run_is_unc_with_damping_force), so "
+    "its error IS the interpolation error of that force; that this error is O(h^2) and the global convergence to the "
+    "coupled solution are measured (step-halving), not proved; (5) the tie of the array-level matSys / alphaMat to the "
+    "linear maps of the theorems is the hypothesis 'solve inverts A' (measured by the correspondence); round-off is "
+    "outside the theorems"
 )
 MANIFEST = {
     "level_text": "Proof (Lean 4, kernel-checked, standard axioms only) about one polymorphic transcription of "
     "SolveNewmark (start-up, 1/3-averaged three-point recurrence with pre-multiplied nonlinear term, extrapolated "
-    "last step, central differences) and of the cd-as-force alpha recurrence: over any module the model's history "
-    "satisfies the documented equations term by term given that `solve` inverts A (`newmark_is_documented`, "
-    "`newmark_central_differences`, `cdf_is_documented`); the scalar scheme is exact on quadratics "
-    "(`newmark_consistent`), the documented start-up has the explicit defect A(d1 - u(h)) = u''(0)/2 (bh/6 - m/3), "
-    "zero iff F(0) = K u0 + B v0 for m != 0, m != bh/2 (`newmark_startup_defect`, `newmark_startup_exact_iff`: the "
-    "order drop, stated), both roots of A z^2 - A1 z - A0 lie strictly inside the unit disc for m >= 0, b, k, h > 0 "
-    "(`newmark_stable_scalar`), massless DOF keep A != 0 (`massless_ok`), and with zero off-diagonal damping the "
-    "cd-as-force step is SolveUnc's (`cdf_diag_eq_unc`). The same definitions run at Float and are compared with "
-    "SolveNewmark / SolveCDF / SolveUnc(cd_as_force) histories (diag, full, singular mass, rf, nonlinear callbacks). "
-    "Partial: global convergence and full-matrix stability are measured (step-halving orders, boundedness), not proved.",
+    "last step, central differences, rf rows) and of the cd-as-force alpha recurrence incl. alpha itself. Proved: over "
+    "any module the model's history satisfies the documented equations term by term given that `solve` inverts A "
+    "(`newmark_is_documented`, `newmark_central_differences`, `cdf_is_documented`), and for linear systems it is the "
+    "sequence d_n of the documented recurrence (`newmark_run_is_sequence`); exactness on quadratics "
+    "(`newmark_consistent`), explicit start-up defect, zero iff F(0) = K u0 + B v0 (`newmark_startup_defect`, "
+    "`newmark_startup_exact_iff`); GLOBAL CONVERGENCE for the scalar test equation m u'' + b u' + k u = f, m > 0, b, k >= 0: "
+    "error recursion (`newmark_error_recursion`), truncation bound (5 m M4/12 + b M3/2) h^2 (`newmark_truncation_bound`), "
+    "start-up error bound (`newmark_startup_error_bound`), energy stability sqrt(E_n) <= sqrt(E_0) + (h/sqrt m) sum |g_j| "
+    "with no exponential factor for every h > 0 (`newmark_energy_identity`, `newmark_energy_stable`, "
+    "`newmark_power_bounded_scalar`, `newmark_free_response_bounded`), hence max_n |d_n - u(t_n)| <= K1 |F(0) - K u0 - B v0| h "
+    "+ K2 h^2 with explicit constants for every h (`newmark_converges_scalar`), second order when the initial force "
+    "balances the initial state (`newmark_converges_scalar_second_order`): the documented order drop, proved; both roots "
+    "of A z^2 - A1 z - A0 inside the unit disc for m >= 0, b, k, h > 0 (`newmark_stable_scalar`); unconditional stability "
+    "for FULL symmetric positive semidefinite M, K and any B with <Bx,x> >= 0 by the matrix energy (`newmark_stable_full`), "
+    "reduction of modally damped systems to the scalar scheme (`newmark_stable_modal`); massless DOF keep A != 0 "
+    "(`massless_ok`) and massless undamped rows are solved quasi-statically, k d_j = F_j (`massless_rows_quasistatic`, "
+    "`rf_rows_static`); cd-as-force: alpha = C_od (I + Bp C_od)^-1 = (I + C_od Bp)^-1 C_od for ANY C_od (`cdf_alpha_identity`, "
+    "`cdf_alpha_transpose_solve`; the transposed look-alike differs: `cdf_alpha_transposed_variant_differs`), every step "
+    "is SolveUnc's exact step for the force P - C_od v interpolated linearly over the step "
+    "(`cdf_step_is_exact_for_interpolated_damping_force`, `cdf_run_is_unc_with_damping_force`) and with zero off-diagonal "
+    "damping it is SolveUnc's (`cdf_diag_eq_unc`). The same definitions run at Float and are compared with SolveNewmark / "
+    "SolveCDF / SolveUnc(cd_as_force) histories (diag, full, C and Fortran layout, singular mass, massless undamped rows, "
+    "rf, nonlinear callbacks, symmetric and non-symmetric coupled damping, alpha, step-halving triples, call sequences "
+    "on re-used solver objects with re-defined / in-place-modified nonlinear terms). Partial: "
+    "convergence for coupled matrices, of velocities/accelerations, with nonlinear terms, and of SolveCDF to the coupled "
+    "solution is measured (step-halving orders), not proved.",
     "level_note": "Trusted: Lean kernel; propext, Classical.choice, Quot.sound; the Python harness; LU solves modelled "
-    "by their specification; get_su_coef coefficients taken from the solver (C01); round-off outside the theorems.",
-    "technique": "Lean 4 proof (ring identities, Schur-Cohn via nlinarith, induction over the loop) on a polymorphic "
-    "model + numeric differential correspondence with SolveNewmark/SolveCDF + numpy recurrence-residual oracle",
+    "by their specification; get_su_coef coefficients taken from the solver (C01); the exact solution with four bounded "
+    "derivatives is a hypothesis of the convergence theorems; round-off outside the theorems. Only tied / measured: the "
+    "observed step-halving ratios (about 4 balanced, about 2 unbalanced; recorded for model and implementation), energy "
+    "non-increase and boundedness of the free response on the real code, SolveCDF orders.",
+    "technique": "Lean 4 proof (ring identities, Schur-Cohn via nlinarith, induction over the loop, discrete energy "
+    "method, Taylor remainders via Mathlib's mean-value fencing lemma, inner-product-space energy for full matrices) on a "
+    "polymorphic model + numeric differential correspondence with SolveNewmark/SolveCDF incl. step-halving triples + "
+    "numpy recurrence-residual / energy / quasi-static / SolveUnc-with-damping-force oracle",
 }
 
 TOL = 1e-9
@@ -157,6 +221,15 @@ def gen_newmark(rng, forced=None):
             k[i] = 0.0
             b[i] = 0.0
             tags.append("rigid-body")
+    if not mnone and forced.get("quasistatic", rng.random() < 0.1):
+        # a massless AND undamped row: A = k/3 there; the recurrence must degenerate to k d_j = F_j (j >= 1)
+        i = int(rng.integers(0, n))
+        if k[i] > 0:
+            m[i] = 0.0
+            b[i] = 0.0
+            tags.append("massless-undamped")
+            if "massless" not in tags:
+                tags.append("massless")
     amp = np.where(k > 0, k, m / h / h + b / h)
     F = _force(rng, n, nt, h, amp, forced.get("style", rng.choice(["zero", "noise", "sine", "step", "ramp"])))
     d0 = None if rng.random() < 0.3 else rng.standard_normal(n)
@@ -241,6 +314,161 @@ def gen_cdf(rng, forced=None):
             "tags": tags, "cls": str(rng.choice(["SolveCDF", "SolveUnc"])), "layout": str(rng.choice(["C", "F"]))}
 
 
+def _gen_terms(rng, n, m, k, h, nt, tid0, shared=False):
+    """nonlinear-term descriptions with transform-array ids (`tid`): terms with the same tid share ONE ndarray"""
+    terms = []
+    cnt = int(rng.integers(2, 4)) if shared else int(rng.integers(1, 3))
+    Tsh = None
+    for i in range(cnt):
+        kind = int(rng.integers(0, 4))
+        p = int(rng.integers(0, n))
+        q = int(rng.integers(0, n))
+        kk = float(k[p] if k[p] > 0 else m[p] / h / h)
+        c = {0: 0.3 * kk, 1: kk, 2: 0.1 * float(m[p]) if m[p] > 0 else 0.01 * kk * h * h, 3: 0.02 * kk / nt}[kind]
+        g = {0: 0.0, 1: 0.2, 2: 0.0, 3: 0.1 * kk}[kind]
+        T = rng.standard_normal(n) * (rng.random(n) < 0.7)
+        if not T.any():
+            T[p] = 1.0
+        if shared:
+            Tsh = T if Tsh is None else Tsh
+            T = Tsh
+        terms.append({"kind": kind, "p": p, "q": q, "c": c, "g": g, "T": T.tolist(), "tid": tid0 if shared else tid0 + i})
+    return terms
+
+
+SEQ_HOWS = ("fresh-arrays", "shared-array", "inplace", "same-dict", "tsolve-only", "clear")
+
+
+def gen_newmark_seq(rng, forced=None):
+    """A CALL SEQUENCE on ONE SolveNewmark object: phases of (optional def_nonlin re-definition, tsolve).
+
+    how = fresh-arrays : def_nonlin(new dict of new transform arrays)
+          shared-array : def_nonlin(new dict), several terms share one transform array
+          inplace      : the transform arrays of the previous definition are overwritten IN PLACE (parametric study) and
+                         def_nonlin is called again with the same array objects
+          same-dict    : the caller's dict object is mutated (entry replaced / added) and passed again
+          tsolve-only  : no re-definition, only new force / initial conditions
+          clear        : def_nonlin({}) - back to the linear solver
+    Each phase lists the terms IN FORCE (values the arrays hold at the time of the most recent def_nonlin)."""
+    forced = forced or {}
+    n = int(forced.get("n", rng.integers(1, 5)))
+    h = float(10 ** rng.uniform(-3, 0))
+    form = str(forced.get("form", rng.choice(["diag", "diagmat", "full", "full"])))
+    m, b, k = _modal(rng, n, 0.02, 1.0, h)
+    tags = []
+    if rng.random() < 0.2:
+        i = int(rng.integers(0, n))
+        m[i] = 0.0
+        if b[i] == 0.0:
+            b[i] = 0.3 * k[i] * h
+        tags.append("massless")
+    spec = {"solver": "newmark-seq", "h": h, "form": form, "tags": tags, "mnone": False, "n": n,
+            "layout": str(rng.choice(["C", "F"]))}
+    if form == "full":
+        Q = np.eye(n) + 0.35 * rng.standard_normal((n, n)) / max(1, n) ** 0.5
+        spec.update(m=(Q.T @ np.diag(m) @ Q).tolist(), b=(Q.T @ np.diag(b) @ Q).tolist(), k=(Q.T @ np.diag(k) @ Q).tolist())
+    elif form == "diagmat":
+        spec.update(m=np.diag(m).tolist(), b=np.diag(b).tolist(), k=np.diag(k).tolist())
+    else:
+        spec.update(m=m.tolist(), b=b.tolist(), k=k.tolist())
+    amp = np.where(k > 0, k, m / h / h + b / h)
+    hows = list(forced.get("hows") or [])
+    nph = len(hows) or int(rng.integers(2, 5))
+    phases, cur, tid = [], [], 0
+    for ip in range(nph):
+        nt = int(rng.choice([2, 3, int(rng.integers(4, 12)), int(rng.integers(12, 40))]))
+        F = _force(rng, n, nt, h, amp, rng.choice(["zero", "noise", "sine", "step", "ramp"]))
+        d0 = None if rng.random() < 0.3 else rng.standard_normal(n)
+        v0 = None if rng.random() < 0.3 else rng.standard_normal(n) * np.sqrt(np.where(m > 0, k / np.where(m > 0, m, 1), 1.0))
+        if hows:
+            how = hows[ip]
+        elif ip == 0:
+            how = str(rng.choice(["fresh-arrays", "shared-array", "tsolve-only"]))
+        else:
+            how = str(rng.choice(SEQ_HOWS if cur else ("fresh-arrays", "shared-array", "tsolve-only")))
+        if how in ("inplace", "same-dict") and not cur:
+            how = "fresh-arrays"
+        if how == "fresh-arrays":
+            cur = _gen_terms(rng, n, m, k, h, nt, tid)
+            tid += len(cur)
+        elif how == "shared-array":
+            cur = _gen_terms(rng, n, m, k, h, nt, tid, shared=True)
+            tid += 1
+        elif how == "inplace":
+            fac = {}
+            for t in cur:
+                if t["tid"] not in fac:
+                    fac[t["tid"]] = (float(rng.choice([3.0, 0.5, -1.0, 2.0])), rng.standard_normal(n) if rng.random() < 0.3 else None)
+            new = []
+            for t in cur:
+                f, T2 = fac[t["tid"]]
+                new.append(dict(t, T=(np.array(t["T"]) * f if T2 is None else T2).tolist()))
+            cur = new
+        elif how == "same-dict":
+            cur = [dict(t) for t in cur]
+            extra = _gen_terms(rng, n, m, k, h, nt, tid)
+            tid += len(extra)
+            if rng.random() < 0.5:
+                cur[int(rng.integers(0, len(cur)))] = extra[0]  # entry replaced under the same key
+            else:
+                cur = cur + extra[:1]  # entry added
+        elif how == "clear":
+            cur = []
+        phases.append({"how": how, "F": F.tolist(), "d0": None if d0 is None else d0.tolist(),
+                       "v0": None if v0 is None else v0.tolist(), "nt": nt, "terms": [dict(t) for t in cur]})
+    spec["phases"] = phases
+    return spec
+
+
+def _phase_spec(spec, ph):
+    """the single-call case equivalent to one phase of a sequence (a fresh solver given the definition in force)"""
+    return {"solver": "newmark", "h": spec["h"], "form": spec["form"], "tags": spec["tags"], "mnone": False, "m": spec["m"],
+            "b": spec["b"], "k": spec["k"], "F": ph["F"], "d0": ph["d0"], "v0": ph["v0"], "rf": None, "terms": ph["terms"],
+            "nt": ph["nt"], "n": spec["n"], "layout": spec.get("layout", "C")}
+
+
+def run_newmark_seq(spec):
+    """Run the whole call sequence on ONE solver object -> list of per-phase results (d, v, a, z, mutated)."""
+    from pyyeti import ode
+
+    lay = spec.get("layout", "C")
+    m, b, k = _arr(spec["m"], lay), _arr(spec["b"], lay), _arr(spec["k"], lay)
+    keep = [None if x is None else x.copy() for x in (m, b, k)]
+    ts = ode.SolveNewmark(m, b, k, spec["h"])
+    pool, dct, out = {}, {}, []
+    for ph in spec["phases"]:
+        for t in ph["terms"]:
+            vals = np.array(t["T"], float).reshape(-1, 1)
+            if t["tid"] in pool:
+                pool[t["tid"]][:] = vals  # the caller's array object is re-used and overwritten in place
+            else:
+                pool[t["tid"]] = vals.copy()
+        if ph["how"] != "tsolve-only":
+            new = {"t%d" % i: (_zfun(t), pool[t["tid"]]) for i, t in enumerate(ph["terms"])}
+            if ph["how"] == "same-dict":
+                dct.clear()
+                dct.update(new)
+            else:
+                dct = new
+            ts.def_nonlin(dct)
+        F = np.array(ph["F"], float)
+        d0, v0 = _arr(ph["d0"]), _arr(ph["v0"])
+        owned = [("m", m, keep[0]), ("b", b, keep[1]), ("k", k, keep[2]), ("force", F, F.copy()),
+                 ("d0", d0, None if d0 is None else d0.copy()), ("v0", v0, None if v0 is None else v0.copy())]
+        owned += [("T%d" % tid, a, a.copy()) for tid, a in pool.items()]
+        try:
+            sol = ts.tsolve(F, d0, v0)
+        except IndexError:
+            out.append({"error": "index-error"})
+            continue
+        res = {"d": np.array(sol.d), "v": np.array(sol.v), "a": np.array(sol.a), "unc": bool(ts.unc)}
+        if ph["terms"]:
+            res["z"] = {key: np.array(val) for key, val in sol.z.items()} if hasattr(sol, "z") else {}
+        res["mutated"] = [nm for nm, a, c in owned if a is not None and not np.array_equal(a, c)]
+        out.append(res)
+    return out
+
+
 # ---------------------------------------------------------------------------------------
 # running the implementation
 
@@ -310,6 +538,42 @@ def run_cdf(spec, cls=None, b_override=None):
         ts = ode.SolveUnc(_arr(spec["m"]), b, _arr(spec["k"]), spec["h"], rf=spec.get("rf"), order=spec["order"])
     sol = ts.tsolve(np.array(spec["F"], float), _arr(spec["d0"]), _arr(spec["v0"]))
     return ts, {"d": np.array(sol.d), "v": np.array(sol.v), "a": np.array(sol.a)}
+
+
+def cdf_reuse(spec, cls):
+    """Second and third tsolve on the SAME cd-as-force solver object (other force / initial conditions, then the first
+    ones again) against fresh objects -> None or (what, max difference, scale)."""
+    from pyyeti import ode
+
+    lay = spec.get("layout", "C")
+    mkb = [_arr(spec["m"]), _arr(spec["b"], lay), _arr(spec["k"])]
+    keep = [None if x is None else x.copy() for x in mkb]
+    if cls == "SolveCDF":
+        ts = ode.SolveCDF(*mkb, spec["h"], rf=spec.get("rf"), order=spec["order"])
+    else:
+        ts = ode.SolveUnc(*mkb, spec["h"], rf=spec.get("rf"), order=spec["order"], cd_as_force=True)
+    F = np.array(spec["F"], float)
+    sol1 = ts.tsolve(F.copy(), _arr(spec["d0"]), _arr(spec["v0"]))
+    first = {nm: np.array(getattr(sol1, nm)) for nm in "dva"}
+    for nm, a, c in zip("mbk", mkb, keep):
+        if a is not None and not np.array_equal(a, c):
+            return "the caller's %s array was modified by the constructor / tsolve" % nm, 1.0, 0.0
+    F2 = 0.5 * F[:, ::-1] + 0.25 * np.abs(F).max()
+    alt = dict(spec, F=F2.tolist(), d0=spec["v0"] and (0.1 * spec["h"] * np.array(spec["v0"])).tolist(),
+               v0=spec["d0"] and (np.array(spec["d0"]) / spec["h"] * 0.1).tolist())
+    Fk = F2.copy()
+    sol2 = ts.tsolve(F2, _arr(alt["d0"]), _arr(alt["v0"]))
+    if not np.array_equal(F2, Fk):
+        return "the force array passed to tsolve was modified", 1.0, 0.0
+    _, fresh2 = run_cdf(alt, cls)
+    sol3 = ts.tsolve(F.copy(), _arr(spec["d0"]), _arr(spec["v0"]))
+    for what, a, bb in (("second tsolve on a used object", sol2, fresh2), ("first input again on a used object", sol3, first)):
+        for name in "dva":
+            x, y = np.array(getattr(a, name)), bb[name]
+            sc = max(float(np.abs(y).max()), 1e-300)
+            if not np.abs(x - y).max() <= 1e-12 * sc:
+                return what + " (%s)" % name, float(np.abs(x - y).max()), sc
+    return None
 
 
 def _mats(spec):
@@ -412,6 +676,8 @@ def _newmark_cases(ctx):
         {"form": "diag", "massless": True, "mnone": False, "terms": False}, {"form": "diag", "rf": True, "n": 3, "terms": False},
         {"form": "full", "rf": True, "n": 4, "terms": False}, {"nt": 2}, {"nt": 3}, {"mnone": True, "form": "full"},
         {"mnone": True, "form": "diag"}, {"rigid": True, "form": "diag", "mnone": False, "massless": False},
+        {"quasistatic": True, "form": "diag", "mnone": False, "terms": False, "rigid": False, "nt": 12},
+        {"quasistatic": True, "form": "full", "mnone": False, "terms": False, "rigid": False},
     ] + [{"terms": True, "kind": kk, "form": f} for kk in range(4) for f in ("diag", "full")]
     for p in pins:
         cases.append(gen_newmark(rng, p))
@@ -436,6 +702,7 @@ def _corr_newmark(ctx):
         kept.append((spec, len(req), len(lines)))
         req += lines
     rep = drv.ask(req)
+    rfjobs = []
     for spec, at, cnt in kept:
         impl = run_newmark(spec)
         n, nt = spec["n"], spec["nt"]
@@ -454,6 +721,7 @@ def _corr_newmark(ctx):
             ctx.count("newmark:" + t)
         ctx.count("newmark:nt=%s" % (nt if nt <= 3 else ">3"))
         ctx.count("newmark:form=" + spec["form"])
+        ctx.count("newmark:layout=" + spec.get("layout", "C"))
         if rf:
             ctx.count("newmark:rf" + ("-all" if not nonrf else ""))
         for t in spec.get("terms") or []:
@@ -491,15 +759,28 @@ def _corr_newmark(ctx):
                 for name, arr, sc in (("d", g[0], sdi), ("v", g[1], sdi / h), ("a", g[2], sdi / h / h)):
                     _cmp(ctx, "newmark-scalar-" + name, spec, name, impl[name][[i]], arr, sc)
         if rf:
-            # rf rows static (Model `rfStatic` is one line: (1/krf) * f); here numerically
+            # rf rows static (Model `rfStatic` is one line: (1/krf) * f); here numerically, and below through the
+            # model's `rfStaticMat` (Gaussian elimination on k_rf) for every rf partition
             M, B, K = _mats(spec)
             F = np.array(spec["F"], float)
             want = np.linalg.solve(K[np.ix_(rf, rf)], F[rf]) if not _is_diag(spec) else F[rf] / np.diag(K)[rf][:, None]
             _cmp(ctx, "newmark-rf-d", spec, "d", impl["d"][rf], want, max(float(np.abs(want).max()), 1e-300))
             _cmp(ctx, "newmark-rf-va", spec, "v", np.vstack([impl["v"][rf], impl["a"][rf]]), 0 * np.vstack([want, want]), 1.0)
+            if np.linalg.cond(K[np.ix_(rf, rf)]) <= 1e6:
+                rfjobs.append((spec, impl["d"][rf], " ".join(["rfm", str(len(rf)), str(nt), _bl(K[np.ix_(rf, rf)]), _bl(F[rf].T)])))
         if len(ctx.samples) < 3 and nontriv:
             ctx.sample({"solver": "newmark", "form": spec["form"], "n": n, "nt": nt, "h": h, "rf": rf,
                         "terms": [KINDS[t["kind"]] for t in spec.get("terms") or []], "d_last": impl["d"][:, -1].tolist()})
+    for (spec, drf, _), r in zip(rfjobs, drv.ask([j[2] for j in rfjobs])):
+        ctx.count("newmark:rf-model")
+        if not r.startswith("ok"):
+            ctx.disagree("newmark-rf-model", spec, "rf rows", r[:40])
+            continue
+        x = _unbits(r.split()[1:])
+        if x.size != drf.size:
+            ctx.disagree("newmark-rf-model", spec, "rf rows", "bad-size")
+            continue
+        _cmp(ctx, "newmark-rf-model", spec, "d", drf, x.reshape(drf.shape[1], drf.shape[0]).T, max(float(np.abs(drf).max()), 1e-300))
 
 
 def _cdf_request(spec, ts):
@@ -510,14 +791,48 @@ def _cdf_request(spec, ts):
     Bfull = np.array(spec["b"], float)
     bo = Bfull[np.ix_(nonrf, nonrf)].copy()
     bo[np.arange(nn), np.arange(nn)] = 0.0
-    # independent alpha = bo (I + Bp bo)^-1
-    alpha = bo @ np.linalg.inv(np.eye(nn) + np.diag(pc.Bp) @ bo)
+    # `alpha` is computed by the model itself (Model/Cdf.lean `alphaMat`: tmp = I + Bp[:, None] * bo,
+    # alpha = solve(tmp.T, bo.T).T with Gaussian elimination) from the off-diagonal damping taken from the INPUT
     F = np.array(spec["F"], float)
     d0 = np.zeros(n) if spec["d0"] is None else np.array(spec["d0"], float)
     v0 = np.zeros(n) if spec["v0"] is None else np.array(spec["v0"], float)
-    return " ".join(["cdf", str(nn), str(nt), str(spec["order"])] + [_bl(getattr(pc, c)) for c in
-                    ("F", "G", "A", "B", "Fp", "Gp", "Ap", "Bp")] + [_bl(bo), _bl(alpha), _bl(F[nonrf].T),
+    return " ".join(["cdfa", str(nn), str(nt), str(spec["order"])] + [_bl(getattr(pc, c)) for c in
+                    ("F", "G", "A", "B", "Fp", "Gp", "Ap", "Bp")] + [_bl(bo), _bl(F[nonrf].T),
                                                                    _bl(d0[nonrf]), _bl(v0[nonrf])])
+
+
+def _cdf_cond_ok(spec, ts):
+    nonrf, _ = _parts(spec)
+    nn = len(nonrf)
+    bo = np.array(spec["b"], float)[np.ix_(nonrf, nonrf)].copy()
+    bo[np.arange(nn), np.arange(nn)] = 0.0
+    try:
+        return np.linalg.cond(np.eye(nn) + np.asarray(ts.pc.Bp)[:, None] * bo) <= 1e6
+    except np.linalg.LinAlgError:
+        return False
+
+
+def _cdf_compare(ctx, spec, ts, impl, r, tag=""):
+    """compare one `cdfa` reply with the implementation: alpha, d, v"""
+    nt = spec["nt"]
+    nonrf, rf = _parts(spec)
+    if not r.startswith("ok"):
+        ctx.disagree("cdf" + tag, spec, "history", r[:40])
+        return False
+    x = _unbits(r.split()[1:])
+    nn = len(nonrf)
+    if x.size != nn * nn + 2 * nn * nt:
+        ctx.disagree("cdf" + tag, spec, "history", "bad-size")
+        return False
+    al = x[: nn * nn].reshape(nn, nn)
+    x = x[nn * nn:].reshape(2, nt, nn)
+    sd = max(float(np.abs(impl["d"]).max()), 1e-300)
+    sv = max(float(np.abs(impl["v"]).max()), sd / spec["h"] * 1e-3, 1e-300)
+    ok = _cmp(ctx, "cdf-alpha" + tag, spec, "alpha", np.asarray(ts.pc.alpha, float), al,
+              max(float(np.abs(al).max()), float(np.abs(ts.pc.alpha).max()), 1e-300))
+    ok = _cmp(ctx, "cdf-d" + tag, spec, "d", impl["d"][nonrf], x[0].T, sd) and ok
+    ok = _cmp(ctx, "cdf-v" + tag, spec, "v", impl["v"][nonrf], x[1].T, sv) and ok
+    return ok
 
 
 def _corr_cdf(ctx):
@@ -532,10 +847,13 @@ def _corr_cdf(ctx):
         if not getattr(ts, "cdforces", False):
             ctx.disagree("cdf-path", spec, "cdforces is False for coupled damping", "cd-as-force path")
             continue
+        if not _cdf_cond_ok(spec, ts):
+            ctx.skip("cdf: cond(I + Bp C_od) > 1e6")
+            continue
         req.append(_cdf_request(spec, ts))
-        impls.append((spec, impl, cls))
+        impls.append((spec, impl, cls, ts))
     rep = drv.ask(req)
-    for (spec, impl, cls), r in zip(impls, rep):
+    for (spec, impl, cls, ts), r in zip(impls, rep):
         n, nt = spec["n"], spec["nt"]
         nonrf, rf = _parts(spec)
         key = json.dumps(spec, sort_keys=True)
@@ -547,30 +865,216 @@ def _corr_cdf(ctx):
             ctx.count("cdf:" + t)
         if rf:
             ctx.count("cdf:rf")
-        if not r.startswith("ok"):
-            ctx.disagree("cdf", spec, "history", r[:40])
+        ctx.count("cdf:alpha-from-model")
+        ctx.count("cdf:layout=" + spec.get("layout", "C"))
+        _cdf_compare(ctx, spec, ts, impl, r)
+        if nt >= 2 and ctx.evaluations % 4 == 0:
+            ctx.count("cdf:reused-solver")
+            bad = cdf_reuse(spec, cls)
+            if bad:
+                ctx.disagree("cdf-reused-solver", spec, {"what": bad[0], "difference": bad[1], "scale": bad[2]}, "the history of a fresh solver object")
+
+
+def _smooth_case(rng, solver, balanced):
+    """small damped system with a smooth force on [0, 1]; returns (M, B, K, args-for-the-solver, d0, v0, ffun, form)"""
+    n = int(rng.integers(2 if solver == "cdf" else 1, 4))
+    w = 2 * np.pi * rng.uniform(0.5, 3.0, n)
+    m = rng.uniform(0.5, 2.0, n)
+    zeta = rng.uniform(0.01, 0.3, n)
+    k = m * w * w
+    b = 2 * zeta * m * w
+    if solver == "newmark" and rng.random() < 0.5:
+        Q = np.eye(n) + 0.3 * rng.standard_normal((n, n))
+        M, B, K = Q.T @ np.diag(m) @ Q, Q.T @ np.diag(b) @ Q, Q.T @ np.diag(k) @ Q
+        args, form = (M, B, K), "full"
+    elif solver == "newmark":
+        M, B, K = np.diag(m), np.diag(b), np.diag(k)
+        args, form = (m, b, k), "diag"
+    else:
+        R = rng.standard_normal((n, n))
+        off = 0.3 * np.sqrt(np.outer(b, b)) * (R if rng.random() < 0.4 else (R + R.T) / 2)
+        off[np.arange(n), np.arange(n)] = 0
+        M, B, K = np.diag(m), np.diag(b) + off, np.diag(k)
+        args, form = (m, B, k), "cdf"
+    d0 = rng.standard_normal(n)
+    v0 = rng.standard_normal(n) * w
+    fw = 2 * np.pi * rng.uniform(0.3, 1.5)
+    f1 = rng.standard_normal(n) * k
+    ph = rng.uniform(0, 6)
+    base = K @ d0 + B @ v0
+    if not balanced:
+        base = base + rng.choice([-1, 1], n) * rng.uniform(0.5, 2.0, n) * k * (1 + np.abs(d0))
+    ffun = lambda t: base + f1 * (np.sin(fw * t + ph) - np.sin(ph))
+    return M, B, K, args, d0, v0, ffun, form
+
+
+def _cdf_parse(r, nn, nt):
+    if not r.startswith("ok"):
+        return None
+    x = _unbits(r.split()[1:])
+    if x.size != nn * nn + 2 * nn * nt:
+        return None
+    y = x[nn * nn:].reshape(2, nt, nn)
+    return x[: nn * nn].reshape(nn, nn), y[0].T, y[1].T
+
+
+def _corr_halving(ctx):
+    """Step-halving CORRESPONDENCE: the Float model and the implementation are run on the same smooth problem at
+    h, h/2, h/4; the three histories are compared like every other case, and the error ratios of both against the
+    exact solution are recorded in the evidence (the quantitative side of `newmark_converges_scalar`)."""
+    rng = ctx.np_rng(1719)
+    drv = ctx.driver("C17")
+    T = 1.0
+    hs = [T / 40, T / 80, T / 160]
+    jobs = [("newmark", bool(i % 2)) for i in range(ctx.pick(4, 16))] + [("cdf", False) for _ in range(ctx.pick(2, 8))]
+    rows = []
+    for solver, balanced in jobs:
+        M, B, K, args, d0, v0, ffun, form = _smooth_case(rng, solver, balanced)
+        n = len(d0)
+        ref = _exact(M, B, K, ffun, d0, v0, T, nref=40)
+        scale = max(float(np.abs(ref).max()), 1e-12)
+        e_impl, e_model = [], []
+        good = True
+        for stride, h in zip((1, 2, 4), hs):
+            nt = int(round(T / h)) + 1
+            F = np.array([ffun(tt) for tt in np.arange(nt) * h]).T
+            if solver == "newmark":
+                spec = {"solver": "newmark", "h": h, "form": form, "tags": [], "mnone": False,
+                        "m": np.asarray(args[0]).tolist(), "b": np.asarray(args[1]).tolist(), "k": np.asarray(args[2]).tolist(),
+                        "F": F.tolist(), "d0": d0.tolist(), "v0": v0.tolist(), "rf": None, "terms": [], "nt": nt, "n": n,
+                        "layout": "C", "halving": True}
+                impl = run_newmark(spec)
+                rep = drv.ask(_newmark_requests(spec)[:1])[0]
+                got = _parse_hist(rep, n, nt)
+                ctx.case(json.dumps(spec, sort_keys=True), nontrivial=True, branch="newmark:step-halving")
+                if "error" in impl or isinstance(got, str):
+                    ctx.disagree("newmark-halving", spec, impl.get("error", "history"), str(got)[:40])
+                    good = False
+                    break
+                sd = max(float(np.abs(impl["d"]).max()), float(np.abs(d0 - h * v0).max()),
+                         float(np.abs(impl["d"][:, -2] + 2 * h * impl["v"][:, -1]).max()), 1e-300)
+                for name, arr, sc in (("d", got[0], sd), ("v", got[1], sd / h), ("a", got[2], sd / h / h)):
+                    good = _cmp(ctx, "newmark-halving-" + name, spec, name, impl[name], arr, sc) and good
+                dm = got[0]
+            else:
+                spec = {"solver": "cdf", "h": h, "n": n, "nt": nt, "m": np.asarray(args[0]).tolist(), "b": B.tolist(),
+                        "k": np.asarray(args[2]).tolist(), "F": F.tolist(), "d0": d0.tolist(), "v0": v0.tolist(), "rf": None,
+                        "order": 1, "tags": [], "cls": "SolveCDF", "layout": "C", "halving": True}
+                ts, impl = run_cdf(spec, "SolveCDF")
+                rep = drv.ask([_cdf_request(spec, ts)])[0]
+                ctx.case(json.dumps(spec, sort_keys=True), nontrivial=True, branch="cdf:step-halving")
+                good = _cdf_compare(ctx, spec, ts, impl, rep, tag="-halving") and good
+                got = _cdf_parse(rep, n, nt)
+                if got is None:
+                    good = False
+                    break
+                dm = got[1]
+            e_impl.append(float(np.abs(impl["d"][:, ::stride] - ref).max()))
+            e_model.append(float(np.abs(dm[:, ::stride] - ref).max()))
+        if not good or len(e_impl) < 3:
             continue
-        x = _unbits(r.split()[1:])
-        nn = len(nonrf)
-        if x.size != 2 * nn * nt:
-            ctx.disagree("cdf", spec, "history", "bad-size")
+        ratio = lambda e: [e[i] / max(e[i + 1], 1e-300) for i in range(2)]
+        ri, rm = ratio(e_impl), ratio(e_model)
+        rows.append({"solver": solver, "form": form, "balanced": bool(balanced), "n": n, "hs": hs,
+                     "errors_impl": e_impl, "errors_model": e_model,
+                     "ratios_impl": [round(x, 4) for x in ri], "ratios_model": [round(x, 4) for x in rm]})
+        if min(e_impl) > 1e-6 * scale:
+            for a, c in zip(ri, rm):
+                if not abs(a - c) <= 1e-2 * max(abs(a), abs(c)):
+                    ctx.disagree("halving-ratio", {"solver": solver, "form": form, "balanced": bool(balanced)}, ri, rm)
+                    break
+    ctx.extra["step_halving_correspondence"] = rows
+
+
+SEQ_PINS = (
+    {"hows": ["fresh-arrays", "inplace"], "form": "full", "n": 2}, {"hows": ["fresh-arrays", "inplace", "inplace"], "form": "diag"},
+    {"hows": ["shared-array", "inplace"], "form": "full"}, {"hows": ["shared-array", "tsolve-only", "inplace"], "form": "diag"},
+    {"hows": ["fresh-arrays", "same-dict"], "form": "full"}, {"hows": ["fresh-arrays", "clear", "tsolve-only"], "form": "diag"},
+    {"hows": ["tsolve-only", "tsolve-only", "fresh-arrays"], "form": "full"}, {"hows": ["fresh-arrays", "fresh-arrays"], "form": "diagmat"},
+)
+
+
+def _seq_ok(spec):
+    return _cond_ok(_phase_spec(spec, spec["phases"][0]))
+
+
+def _corr_sequences(ctx):
+    """Solver objects are RE-USED: every phase of a call sequence on one object is compared with the Lean model run on
+    the definition in force (and, exactly, with a fresh object given that definition); caller-owned arrays must be
+    unchanged after every call."""
+    rng = ctx.np_rng(1723)
+    specs = [gen_newmark_seq(rng, p) for p in SEQ_PINS] + [gen_newmark_seq(rng) for _ in range(ctx.pick(150, 900))]
+    drv = ctx.driver("C17")
+    req, kept = [], []
+    for spec in specs:
+        if not _seq_ok(spec):
+            ctx.skip("newmark-seq: cond(A) > 1e6")
             continue
-        x = x.reshape(2, nt, nn)
-        sd = max(float(np.abs(impl["d"]).max()), 1e-300)
-        sv = max(float(np.abs(impl["v"]).max()), sd / spec["h"] * 1e-3, 1e-300)
-        _cmp(ctx, "cdf-d", spec, "d", impl["d"][nonrf], x[0].T, sd)
-        _cmp(ctx, "cdf-v", spec, "v", impl["v"][nonrf], x[1].T, sv)
+        lines = [_newmark_requests(_phase_spec(spec, ph))[0] for ph in spec["phases"]]
+        kept.append((spec, len(req)))
+        req += lines
+    rep = drv.ask(req)
+    for spec, at in kept:
+        res = run_newmark_seq(spec)
+        key = json.dumps(spec, sort_keys=True)
+        n, h = spec["n"], spec["h"]
+        any_nontriv = False
+        for ip, (ph, r) in enumerate(zip(spec["phases"], res)):
+            ctx.count("newmark-seq:" + ph["how"] + ("" if ip else "-first"))
+            nt = ph["nt"]
+            pspec = _phase_spec(spec, ph)
+            if "error" in r:
+                ctx.disagree("newmark-seq-error", spec, r["error"], "a history (phase %d)" % ip)
+                continue
+            if r["mutated"]:
+                ctx.disagree("newmark-seq-caller-arrays", spec, {"phase": ip, "mutated": r["mutated"]}, "caller-owned arrays unchanged")
+            if not np.all(np.isfinite(r["d"])):
+                ctx.skip("newmark-seq: non-finite history (explicit nonlinear term blew up)")
+                break
+            u1 = (np.zeros(n) if ph["d0"] is None else np.array(ph["d0"])) - h * (np.zeros(n) if ph["v0"] is None else np.array(ph["v0"]))
+            sd = max(float(np.abs(r["d"]).max()), float(np.abs(u1).max()), float(np.abs(r["d"][:, -2] + 2 * h * r["v"][:, -1]).max()), 1e-300)
+            if ph["terms"] and sd > 1e8:
+                ctx.skip("newmark-seq: explicit nonlinear term diverges (max |d| > 1e8)")
+                break
+            any_nontriv = any_nontriv or (nt >= 3 and bool(np.any(r["d"])))
+            got = _parse_hist(rep[at + ip], n, nt)
+            if isinstance(got, str):
+                ctx.disagree("newmark-seq-mx", spec, "history (phase %d)" % ip, got[:40])
+                continue
+            okp = True
+            for name, arr, sc in (("d", got[0], sd), ("v", got[1], sd / h), ("a", got[2], sd / h / h)):
+                okp = _cmp(ctx, "newmark-seq-%s-%s" % (ph["how"], name), spec, name, r[name], arr, sc) and okp
+            # the same definition on a FRESH object: identical arithmetic, so (almost) bit-identical
+            fresh = run_newmark(pspec)
+            if "error" in fresh:
+                ctx.disagree("newmark-seq-fresh", spec, "history", fresh["error"])
+                continue
+            for name, sc in (("d", sd), ("v", sd / h), ("a", sd / h / h)):
+                if not np.abs(r[name] - fresh[name]).max() <= 1e-12 * sc:
+                    ctx.disagree("newmark-seq-vs-fresh-%s-%s" % (ph["how"], name), spec,
+                                 {"phase": ip, name: float(np.abs(r[name] - fresh[name]).max())}, "the history of a fresh solver object")
+                    break
+        ctx.case(key, nontrivial=any_nontriv, branch="newmark-seq")
 
 
 def correspondence(ctx):
     _corr_newmark(ctx)
     _corr_cdf(ctx)
+    _corr_halving(ctx)
+    _corr_sequences(ctx)
     ctx.require_branches([
         "newmark:unc", "newmark:full", "newmark:massless", "newmark:m-none", "newmark:rigid-body", "newmark:rf",
         "newmark:nt=2", "newmark:nt=3", "newmark:nt=>3", "newmark:form=diagmat", "newmark:scalar-instance",
         "newmark:nonlin-cubic", "newmark:nonlin-gap", "newmark:nonlin-nasvel", "newmark:nonlin-index",
         "newmark:error:index-error", "cdf:SolveCDF", "cdf:SolveUnc-cdf", "cdf:order=0", "cdf:order=1",
         "cdf:nt=1", "cdf:nt=2", "cdf:rigid-body", "cdf:rf",
+        # added with the extension: massless AND undamped rows, non-symmetric / Fortran-ordered damping, alpha computed
+        # by the model, rf rows through the model, step-halving correspondence
+        "newmark:massless-undamped", "newmark:rf-model", "newmark:step-halving", "cdf:step-halving",
+        "cdf:alpha-from-model", "cdf:nonsymmetric-damping", "cdf:layout=F", "newmark:layout=F",
+        # solver objects re-used (call sequences on one object)
+        "newmark-seq", "newmark-seq:fresh-arrays", "newmark-seq:shared-array", "newmark-seq:inplace", "newmark-seq:same-dict",
+        "newmark-seq:tsolve-only", "newmark-seq:clear", "newmark-seq:tsolve-only-first", "cdf:reused-solver",
     ])
 
 
@@ -582,13 +1086,22 @@ def _fam_form(spec):
     return "diag" if _is_diag(spec) else "full"
 
 
-def oracle_newmark(ctx, spec):
-    """Documented equations evaluated in numpy on the history returned by the public API."""
-    impl = run_newmark(spec)
+def oracle_newmark(ctx, spec, impl=None, report=None, suffix=""):
+    """Documented equations evaluated in numpy on the history returned by the public API.
+
+    `impl` (default: a fresh solver run on `spec`) is the history to judge; `report` the input recorded with a failure
+    (a call sequence, when `spec` is only one of its phases); `suffix` is appended to the family."""
+    if impl is None:
+        impl = run_newmark(spec)
+    rep = spec if report is None else report
+
+    def fail(fam, what, observed, required):
+        ctx.fail(fam + suffix, what, rep, observed, required)
+
     n, nt, h = spec["n"], spec["nt"], spec["h"]
     if "error" in impl:
         if nt >= 2:
-            ctx.fail("newmark-raises-" + impl["error"], "tsolve raises on a valid input", spec, impl["error"], "a history")
+            fail("newmark-raises-" + impl["error"], "tsolve raises on a valid input", impl["error"], "a history")
         return
     nonrf, rf = _parts(spec)
     form = _fam_form(spec)
@@ -596,7 +1109,7 @@ def oracle_newmark(ctx, spec):
     if not (np.all(np.isfinite(d)) and np.all(np.isfinite(v)) and np.all(np.isfinite(a))):
         if not spec.get("terms"):
             fam = "newmark-nonfinite-" + ("massless-" if "massless" in spec["tags"] else "") + form
-            ctx.fail(fam, "non-finite values in the history of a linear system", spec, "nan/inf", "finite history")
+            fail(fam, "non-finite values in the history of a linear system", "nan/inf", "finite history")
         return
     M, B, K = _mats(spec)
     Fall = np.array(spec["F"], float)
@@ -604,8 +1117,7 @@ def oracle_newmark(ctx, spec):
         Kr = K[np.ix_(rf, rf)]
         res = Kr @ d[rf] - Fall[rf]
         if np.abs(res).max() > 1e-9 * max(np.abs(Fall[rf]).max(), 1e-300) or np.any(v[rf]) or np.any(a[rf]):
-            ctx.fail("newmark-rf-static-" + form, "rf rows are not the static solution k_rf d = F, v = a = 0", spec,
-                     float(np.abs(res).max()), 0.0)
+            fail("newmark-rf-static-" + form, "rf rows are not the static solution k_rf d = F, v = a = 0", float(np.abs(res).max()), 0.0)
     if not nonrf:
         return
     ix = np.ix_(nonrf, nonrf)
@@ -631,8 +1143,7 @@ def oracle_newmark(ctx, spec):
             z = f(Dext if j == 0 else D, j, h)[0]
             zi = impl["z"]["t%d" % i][0, j]
             if abs(z - zi) > 1e-9 * max(abs(z), abs(zi), 1e-300):
-                ctx.fail("newmark-nonlin-z-" + KINDS[t["kind"]], "sol.z is not func(d, j, h) on the returned history",
-                         spec, [j, float(zi)], float(z))
+                fail("newmark-nonlin-z-" + KINDS[t["kind"]], "sol.z is not func(d, j, h) on the returned history", [j, float(zi)], float(z))
                 return
             N[:, j] += np.array(t["T"], float) * z
     scale = max(np.abs(A @ D).max(), np.abs(A @ um).max(), np.abs(A1 @ D).max(), np.abs(A0 @ D).max(), np.abs(F).max(), np.abs(N).max(), 1e-300)
@@ -641,13 +1152,23 @@ def oracle_newmark(ctx, spec):
     def chk(fam, what, res, sc=scale):
         r = float(np.abs(res).max()) if np.size(res) else 0.0
         if not r <= rtol * sc:
-            ctx.fail(fam + "-" + form + ("-nonlin" if terms else ""), what, spec, r, "<= %.1e * %.3e" % (rtol, sc))
+            fail(fam + "-" + form + ("-nonlin" if terms else ""), what, r, "<= %.1e * %.3e" % (rtol, sc))
             return False
         return True
 
+    # massless AND undamped rows of a diagonal system are solved quasi-statically: k d_j = F_j for j >= 1
+    # (`massless_rows_quasistatic`; F_0 is replaced, so j = 0 keeps d0)
+    if form == "diag" and not terms and nt >= 2:
+        for r in range(nn):
+            if M[r, r] == 0.0 and B[r, r] == 0.0 and K[r, r] != 0.0:
+                ctx.count("oracle:massless-quasistatic-row")
+                res = K[r, r] * D[r, 1:] - Fall[nonrf][r, 1:]
+                sc = max(np.abs(Fall[nonrf][r]).max(), abs(K[r, r] * d0[r]), abs(K[r, r] * um[r]), 1e-300)
+                if not np.abs(res).max() <= 1e-9 * sc:
+                    fail("newmark-massless-undamped-row-not-quasistatic", "k d_j != F_j (j >= 1) on a row with m = b = 0", float(np.abs(res).max()), "<= 1e-9 * %.3e" % sc)
+                    break
     if np.abs(D[:, 0] - d0).max() > 0 or np.abs(V[:, 0] - v0).max() > 0:
-        ctx.fail("newmark-initial-conditions-" + form, "d[:,0], v[:,0] are not d0, v0", spec,
-                 [D[:, 0].tolist(), V[:, 0].tolist()], [d0.tolist(), v0.tolist()])
+        fail("newmark-initial-conditions-" + form, "d[:,0], v[:,0] are not d0, v0", [D[:, 0].tolist(), V[:, 0].tolist()], [d0.tolist(), v0.tolist()])
     # start-up step
     chk("newmark-startup-step", "A u_1 != (F_1 + F_0' + F_-1)/3 + N_0 + A1 u_0 + A0 u_-1 (documented start-up)",
         A @ D[:, 1] - ((F[:, 1] + F[:, 0] + Fm) / 3 + N[:, 0] + A1 @ d0 + A0 @ um))
@@ -690,6 +1211,14 @@ def oracle_cdf(ctx, spec):
                 return
     if not (Bfull - bd).any():
         return
+    # (a') solver objects are re-used
+    if nt >= 2:
+        for cls in ("SolveCDF", "SolveUnc-cdf"):
+            bad = cdf_reuse(spec, cls)
+            if bad:
+                ctx.fail("cdf-reused-solver-differs-from-fresh", "a cd-as-force solver object gives another history when it is used again: " + bad[0],
+                         spec, bad[1], "<= 1e-12 * %.3e" % bad[2])
+                return
     # (b) coupled damping: documented equations (1), (2) with the instance's diagonal coefficients
     for cls in ("SolveCDF", "SolveUnc-cdf"):
         ts, s = run_cdf(spec, cls)
@@ -716,6 +1245,26 @@ def oracle_cdf(ctx, spec):
             if not np.abs(V[:, 1:] - qd).max() <= 1e-8 * sv:
                 ctx.fail("cdf-implicit-velocity-order%d" % spec["order"], "v_{i+1} != Fp q + Gp v + Ap (P_i - Cod v_i) + Bp (P_{i+1} - Cod v_{i+1})",
                          spec, float(np.abs(V[:, 1:] - qd).max()), "<= 1e-8 * %.3e" % sv)
+        # the whole history is SolveUnc's (diagonal damping) for the force P - C_od v, v the returned velocities, taken
+        # linearly over each step (`cdf_run_is_unc_with_damping_force`); order 0 holds P but still interpolates C_od v
+        if nt >= 2:
+            Q = np.zeros((n, nt))
+            Q[nonrf] = Cod @ V
+            Pfull = np.array(spec["F"], float)
+            if spec["order"] == 1:
+                _, u1 = run_cdf(dict(spec, order=1), "SolveUnc", bd)
+                _, u2 = run_cdf(dict(spec, order=1, F=(-Q).tolist(), d0=None, v0=None), "SolveUnc", bd)
+            else:
+                _, u1 = run_cdf(dict(spec, order=0), "SolveUnc", bd)
+                _, u2 = run_cdf(dict(spec, order=1, F=(-Q).tolist(), d0=None, v0=None), "SolveUnc", bd)
+            for name, sc in (("d", max(np.abs(D).max(), 1e-300)), ("v", max(np.abs(V).max(), 1e-3 * np.abs(D).max() / h, 1e-300))):
+                want = (u1[name] + u2[name])[nonrf]
+                scl = max(sc, float(np.abs(u1[name][nonrf]).max()), float(np.abs(u2[name][nonrf]).max()))
+                if not np.abs(s[name][nonrf] - want).max() <= 1e-8 * scl:
+                    ctx.fail("cdf-not-solveunc-with-interpolated-damping-force-order%d" % spec["order"],
+                             "cd-as-force history (%s) differs from SolveUnc driven by P - C_od v (linear over each step)" % name,
+                             spec, float(np.abs(s[name][nonrf] - want).max()), "<= 1e-8 * %.3e" % scl)
+                    break
         # equation of motion defines the acceleration
         m = np.ones(nn) if spec["m"] is None else np.array(spec["m"], float)[nonrf]
         k = np.array(spec["k"], float)[nonrf]
@@ -858,15 +1407,60 @@ def _bounded_verdict(ctx, spec, d):
     tconst = spec["h"] + 2 * m.max() / b.min() + b.max() / k.min() + np.sqrt(max(m.max(), 0.0) / k.min())
     bound = 50.0 * (np.abs(d0).max() + np.abs(v0).max() * tconst)
     big = float(np.abs(d).max()) if np.all(np.isfinite(d)) else float("inf")
+    isfull = np.count_nonzero(K - np.diag(np.diag(K))) > 0
     if not big <= bound:
-        isfull = np.count_nonzero(K - np.diag(np.diag(K))) > 0
         fam = "newmark-unbounded-large-h-%s%s" % ("full" if isfull else "diag", "-massless" if m.min() < 1e-12 * max(m.max(), 1e-300) else "")
         ctx.fail(fam, "homogeneous response of a damped system grows for a large step", spec, big, "<= %.3e" % bound)
+        return
+    # discrete energy E_n = (1/h^2) <M dd, dd> + (1/3)(<K x, x> + <K x, y> + <K y, y>), x = d_{n+1}, y = d_n, dd = x - y:
+    # non-increasing along the free response from the second pair on (`newmark_stable_full`,
+    # `newmark_free_response_bounded`; the first two steps still see the replaced F_0 and F_-1)
+    h = spec["h"]
+    Ms, Ks = (M + M.T) / 2, (K + K.T) / 2
+    x, y = d[:, 2:], d[:, 1:-1]
+    dd = x - y
+    E = np.einsum("it,it->t", Ms @ dd, dd) / h**2 + (np.einsum("it,it->t", Ks @ x, x) + np.einsum("it,it->t", Ks @ x, y)
+                                                      + np.einsum("it,it->t", Ks @ y, y)) / 3
+    if E.size >= 2:
+        inc = float((E[1:] - E[:-1]).max())
+        if not inc <= 1e-9 * max(float(E[0]), 1e-300):
+            ctx.fail("newmark-energy-grows-%s" % ("full" if isfull else "diag"),
+                     "the discrete energy of the free response of a symmetric positive semidefinite system increases",
+                     spec, inc, "<= 1e-9 * E_1 = %.3e" % (1e-9 * float(E[0])))
+
+
+def oracle_newmark_seq(ctx, spec):
+    """Call sequence on ONE solver object: every tsolve must satisfy the documented equations for the definition in
+    force at that time, equal what a fresh object returns, and leave the caller's arrays alone."""
+    res = run_newmark_seq(spec)
+    for ip, (ph, r) in enumerate(zip(spec["phases"], res)):
+        pspec = _phase_spec(spec, ph)
+        before = len(ctx.failures)
+        if "mutated" in r and r["mutated"]:
+            ctx.fail("newmark-caller-array-modified-" + "-".join(sorted(set(x.rstrip("0123456789") for x in r["mutated"]))),
+                     "tsolve / def_nonlin changed an array owned by the caller", spec, {"phase": ip, "mutated": r["mutated"]}, "unchanged")
+        oracle_newmark(ctx, pspec, impl=r, report=spec, suffix="-reused-solver-after-" + ph["how"])
+        finite = lambda x: all(np.all(np.isfinite(x[nm])) for nm in "dva")
+        if "error" not in r and finite(r) and not (ph["terms"] and float(np.abs(r["d"]).max()) > 1e8):
+            fresh = run_newmark(pspec)
+            if "error" not in fresh and finite(fresh):
+                sd = max(float(np.abs(fresh["d"]).max()), 1e-300)
+                for name, sc in (("d", sd), ("v", sd / spec["h"]), ("a", sd / spec["h"] ** 2)):
+                    dif = float(np.abs(r[name] - fresh[name]).max())
+                    if not dif <= 1e-9 * max(sc, float(np.abs(fresh[name]).max())):
+                        ctx.fail("newmark-reused-solver-differs-from-fresh-after-" + ph["how"],
+                                 "phase %d of a call sequence on one solver object differs from a fresh object given the same definition (%s)" % (ip, name),
+                                 spec, dif, "<= 1e-9 * %.3e" % sc)
+                        break
+        if len(ctx.failures) > before:
+            return
 
 
 def _run_spec(ctx, spec):
     s = spec.get("solver")
-    if s == "newmark":
+    if s == "newmark-seq":
+        oracle_newmark_seq(ctx, spec)
+    elif s == "newmark":
         oracle_newmark(ctx, spec)
     elif s == "cdf":
         oracle_cdf(ctx, spec)
@@ -928,6 +1522,14 @@ def search(ctx, hints):
         if _cond_ok(spec):
             oracle_newmark(ctx, spec)
             ctx.count("oracle:newmark")
+        if len(ctx.failures) > 30:
+            return
+    # solver objects are re-used: call sequences on one SolveNewmark object
+    rngs = ctx.np_rng(1729)
+    for spec in [gen_newmark_seq(rngs, p) for p in SEQ_PINS] + [gen_newmark_seq(rngs) for _ in range(ctx.pick(120, 800))]:
+        if _seq_ok(spec):
+            oracle_newmark_seq(ctx, spec)
+            ctx.count("oracle:newmark-call-sequence")
         if len(ctx.failures) > 30:
             return
     for p in ({"diag_only": True}, {"nt": 1}, {"nt": 2}, {"rigid": True}, {"rf": True}):
